@@ -43,8 +43,8 @@ CLAIMS = {
  "C18": ("C18_gates_are_conjunctions_fixed / C18_fixed_walk_correct (all trees, by tree induction with a stack invariant; the model follows the repaired walk since /repo 7d9ba5c), C18_combine_atoms, C18_no_cfg_unconditional, C18_never_panics, and the historical C18_multi_level_exit_refuted / C18_partial about the pop-once walk (D6, fixed); tie = random trees of depth 0..4 with frequent multi-level exits: every #[cfg] attribute of every emitted item (flattened atom sets and literal all(..) nesting) vs the model and vs the structural spec.",
          "cfg predicates are treated as opaque atoms. " + TB, "5 C18"),
 
- "C07": ("C07_roundtrip, C07_from_num_precedence, C07_error_payload, C07_infallible_getter_total (UnsafeInto chosen => the getter is Ok for every bit pattern, incl. reuse by name on narrower/equal fields) over a model of the emitted match (first arm wins), Default and the getter choice in which an Err at unwrap_unchecked is UB; C07_cfg_reuse_refuted (genuine defect D18: same-named enums under exclusive cfgs) with C07_infallible_getter_total_partial for cfg-free definitions; tie = compiled enums and getters evaluated on EVERY raw value 0..2^w-1 (debug; Miri on the unsafe subset in the thorough tier) vs the Coq tables.",
-         "rustc/Miri are the observers of UB symptoms; cfg-free scope for the full statement. " + TB, "5 C07"),
+ "C07": ("C07_roundtrip, C07_from_num_precedence, C07_error_payload, C07_infallible_getter_total (UnsafeInto chosen => the getter is Ok for every bit pattern, incl. reuse by name on narrower/equal fields) over a model of the emitted match (first arm wins), Default and the getter choice in which an Err at unwrap_unchecked is UB; C07_infallible_getter_total_any_build (EVERY build of every accepted definition, no cfg-free hypothesis, since D18 was repaired in /repo 6916a8d: the getter choice quantifies over all same-named generated enums), C07_cfg_reuse_refuted (historical, about the first-hit rule); tie = compiled enums and getters evaluated on EVERY raw value 0..2^w-1 (debug; Miri on the unsafe subset in the thorough tier) vs the Coq tables.",
+         "rustc/Miri are the observers of UB symptoms; the cfg-reuse family (9 definitions x 2 builds) is compared with the model. " + TB, "5 C07"),
  "C15": ("C15_numberings_agree, C15_implicit_numbering, C15_reject_iff_after_repairs (the full iff for the pass as it is since D12, D16 and D17 were fixed in /repo: 'does not fit' = above 2^w-1, below 0 on an unsigned field, outside the signed repr of an int field), C15_reject_iff_after_repair (the D12-only model, historical), C15_reject_sound, C15_infallible_iff_total (fuelled coverage walk = unbounded statement, pigeonhole), C15_device_accept_iff; historical C15_duplicate_numbers_refuted / _partial about the unrepaired pass; tie = exhaustive enums at small bounds + random (widths 1..16, cfg, int, 4 syntaxes): verdict, error kind and the emitted discriminants vs model and spec on the real MIR.",
          "Widths >= 127 bits panic in a debug-profile generator (noted, outside the property's 1..16). " + TB, "5 C15"),
 
